@@ -3,15 +3,52 @@
 import json, os
 HERE = os.path.dirname(os.path.dirname(os.path.abspath(__file__)))
 TECH = {
- "C01": ("byte-set interpretation of the unescape guard (4x256 cells) + def-use term extraction of canonicalize_url (component flow, port table, trailing slash) + codec error-handler dataflow", "4.C01"),
- "C02": ("dataflow ordering on canonicalize_url terms (cleaning pass, dot-segments vs empty path, unquote vs dot-segments, quoted = quote∘unquote) + regex-language inclusion (escape case, control chars) + byte tables", "4.C02"),
- "C14": ("byte-set table interpretation of _unquote_impl, hex-table enumeration, regex-language equivalence of the escape patterns, path rule on unquote's returns", "4.C14"),
+ "C01": ("byte-set interpretation of the unescape guard (4x256 cells) + def-use term extraction of canonicalize_url (component flow, scheme x port table, trailing slash) + codec error-handler dataflow", "4.C01"),
+ "C02": ("dataflow ordering on canonicalize_url terms (cleaning pass, dot-segments vs empty path, unquote vs dot-segments, quoted = quote(unquote)) + regex-language inclusion (escape case, control chars) + byte tables", "4.C02"),
+ "C03": ("sibling cross-check of pipeline terms (canonicalize vs normalize transformer sets, port-table agreement, decode-before-filter/sort) + fingerprint-over-normalize term shape", "4.C03"),
+ "C04": ("regex-language inclusion of pinned irrelevant-key / sub-domain languages in today's, table inclusion, sort-key injectivity over value classes, required-step and order queries on normalize_url terms", "4.C04"),
+ "C05": ("regex-language emptiness (whole-label removal, '&amp;' repair), partial evaluation of normalize_url terms per option (option ownership), allowed-transformer sets per sink, exception-escape over the may-raise table", "4.C05"),
+ "C06": ("term shape of fingerprint_url (constant port/scheme sinks, option defaults, lower-after-unescape), finite-domain interpretation of the language-label guard and query filters", "4.C06"),
+ "C07": ("sibling cross-checks: role sets and order of non-commuting steps in hostname helpers vs URL functions, forwarding checks on the *_lru_stems variants, string form = urlunsplit(tuple)", "4.C07"),
+ "C08": ("CFG reachability / guard shape features of SuffixTrie.add and __walk + their rule-set conditions evaluated on all 9,952 bundled rules + offset term shapes", "4.C08"),
+ "C09": ("CFG pairing rules on set_and_prune_if_shorter (descend=>record, prune deltas, guard re-establishment), tokenizer agreement add/match via terms, typestate on lookups", "4.C09"),
+ "C10": ("sentinel-discipline lint, CFG pairing rules on __setitem__, typestate 'every visited node is examined' on lookups and traversals, exit-shape rules", "4.C10"),
+ "C11": ("sibling normalisation of the four LRUTrie entry points (terms), variant forwarding, finite-domain interpretation of clean_trailing_path, shared TrieDict/LRU rules", "4.C11"),
+ "C12": ("writer/reader table agreement: tag alphabets (emitter constants, splitter look-ahead class, reader keys), separators, emission guards per component, reader accumulation and assembly templates", "4.C12"),
+ "C13": ("emission-order rule over the tagged appends (program order), reversed/forward iteration shapes, suffix-aware guard, serialisation terminator, suffix-trie walk shape", "4.C13"),
+ "C14": ("byte-set table interpretation of _unquote_impl, hex-table enumeration, regex-language equivalence of the escape patterns, path rule on unquote's returns, codec error-handler dataflow", "4.C14"),
+ "C15": ("progress-guard rule: path conditions of the recursive call evaluated over the orderings of len(target) vs len(url); provenance of returned terms", "4.C15"),
+ "C16": ("regex-language inclusion lattice of the four URL patterns + truth-table proof of option monotonicity over the decision term + validated-before-yield / index-safety path rules on urls_from_text", "4.C16"),
+ "C17": ("twin-regex encoding/flags/ASCII-determinedness, normalised AST comparison of the str/bytes iterators, CFG dominance and order of links_from_html's filter chain, sibling call-site option agreement", "4.C17"),
+ "C18": ("regex-language products: string form vs reference url language over U, parsed form vs pinned domain language (look-alike emptiness), attribute-dependence on terms, domain-list hygiene", "4.C18"),
+ "C19": ("abstract interpretation (list-length intervals, optional values, dict keys) over 34 platform functions, validator-dominance on record constructions, sibling id predicates, template/route agreement", "4.C19"),
+ "C20": ("regex-language facts on PROTOCOL_RE (prefix code, anchoring), branch-template term equality of the protocol helpers, constant-truth lint and value-class interpretation of the builders, writer/reader agreement of add/get_query_argument", "4.C20"),
 }
-NOT_DECIDED = {
+ND = {
  "C01": "decides component-wise safety conditions only (unescape tables, component ownership, port/slash rules); that the composed steps re-parse to the same components for every string is not derived",
  "C02": "decides necessary ordering/commutation conditions; idempotence and spelling-insensitivity as relations over all URLs are not derived",
+ "C03": "decides absorption of each canonical step by the stronger scheme and the fingerprint-over-normalize shape; collision-class inclusion over all URL pairs is not derived",
+ "C04": "decides that the documented-irrelevant languages are still covered and the steps present/ordered; invariance under composed transformations at every position is not derived",
+ "C05": "decides deletion-only / option-ownership / exception-escape conditions on the terms; exact equality of each output part with the input's for all 2^10 option settings is not derived",
+ "C06": "decides the result shape and the guards of the language-label / query filters on class representatives; invariance over all URLs x suffixes is not derived",
+ "C07": "decides that helper and URL function apply the same steps in the same order; equality of outputs on every input (differential) is not derived",
+ "C08": "decides the walk's shape features and their conditions on the bundled list; conformance for arbitrary rule sets beyond those features is not derived",
+ "C09": "decides pairing/delta/typestate conditions on the trie code; set semantics over all insertion histories is not derived",
+ "C10": "decides sentinel, pairing, exit-shape and typestate conditions; observational equivalence with dict over all histories is not derived",
+ "C11": "decides sibling normalisation and delegation; longest-prefix semantics over histories rests on C10/C12/C13 conditions and is not derived",
+ "C12": "decides writer/reader table agreement; losslessness for every URL is not derived",
+ "C13": "decides emission order, iteration direction and terminator; the ancestor law and its converse over all URL pairs are not derived",
  "C14": "decides the byte tables, escape languages and structural idempotence conditions; byte-level equality of decoded content for all strings is not derived",
+ "C15": "decides structural termination (well-founded length decrease on the only recursive call) and provenance; fixed-point equality is not derived",
+ "C16": "monotonicity is proved over all strings modulo the automata construction; for urls_from_text validation/index safety on all paths is decided, document-order is only structural",
+ "C17": "decides twin agreement, filter-chain dominance/order and sibling option agreement; 'one url per anchor tag' over all documents is not derived",
+ "C18": "host-language claims are exact over the stated comparison domain U (whitespace-free urls with http(s) / '//' / bare spelling) modulo the automata construction; trie predicates rest on C09 conditions",
+ "C19": "decides positional/keyed/optional access safety on recognised idioms, validator dominance and route agreement; ValueError raised by the standard parser and full round-trip equality are not derived",
+ "C20": "decides language facts, branch templates and builder/value-class tables; the algebraic laws as relations over all strings are not derived",
 }
+NOT_DECIDED = ND
+
+
 def main():
     props = [json.loads(l) for l in open(os.path.join(HERE, "properties.jsonl"))]
     checks, na = [], []
